@@ -94,4 +94,5 @@ def explore(build, bound=None, limit=None):
 
 
 def canon(obj):
-    return json.dumps(obj, sort_keys=True, default=str, ensure_ascii=True)
+    """Identity of a case for de-duplication.  Map ORDER is part of the identity: the generator reads documents in order."""
+    return json.dumps(obj, sort_keys=False, default=str, ensure_ascii=True)
